@@ -18,6 +18,7 @@ namespace Pg.Sym
 
 inductive Atom where
   | none | missing | int (i : Int) | str (n : Nat) | opaque (id : Nat)
+  | tup (ids : List Nat)          -- a tuple of non-symbolic leaf objects
   deriving DecidableEq, Repr, Inhabited
 
 /-- Keys: interned string names (`s n` stands for the text `k<n>`) and integers. -/
@@ -178,6 +179,10 @@ mutual
   the whole fresh tree, which is the same thing. -/
   def Tree.clone (cfg : Cfg) (deep : Bool) (next : Nat) (par : Option Nat) (p : List Key) : Tree → Tree × Nat
     | .leaf (.opaque i) => if deep then (.leaf (.opaque next), next + 1) else (.leaf (.opaque i), next)
+    -- a tuple is not symbolic: shared by a shallow clone, rebuilt with copied elements by a deep one
+    | .leaf (.tup ids) =>
+      if deep then (.leaf (.tup ((List.range ids.length).map (· + next))), next + ids.length)
+      else (.leaf (.tup ids), next)
     | .leaf a => (.leaf a, next)
     | .node m its =>
       let r := cloneItems cfg deep (next + 1) next p its
@@ -296,6 +301,7 @@ end Forest
 inductive VE where
   | atom (a : Atom)                 -- a leaf value as it is (an `opaque i` is that very object)
   | fresh                           -- a fresh non-symbolic object
+  | freshTuple (n : Nat)            -- a tuple of n fresh non-symbolic objects
   | mkRef (tgt : Option Nat)        -- `pg.Ref(x)`: x an existing node, or (none) a fresh plain list
   | node (kind : Kind) (sealed accW part : Bool) (items : List (Key × VE))
   | ref (id : Nat)                  -- an existing node object
@@ -353,6 +359,7 @@ mutual
   through `relocateRef`. The result is built for the destination (`par`, `p`). -/
   def evalVE (cfg : Cfg) (f : Forest) (pending : Option Nat) (par : Option Nat) (holderObj : Bool) (hpart : Bool) (p : List Key) : VE → Forest × Tree
     | .fresh => ({ f with nextId := f.nextId + 1 }, .leaf (.opaque f.nextId))
+    | .freshTuple n => ({ f with nextId := f.nextId + n }, .leaf (.tup ((List.range n).map (· + f.nextId))))
     | .mkRef tgt =>
       -- a Ref is a pg.Object without symbolic fields; the referenced value is not its child
       let id := f.nextId
